@@ -16,13 +16,14 @@ import (
 type verifStage struct {
 	baseStage
 	id         string
-	plan       PlanNode
+	plan       func() PlanNode
 	next       func() []Stage
 	onComplete func()
 }
 
 // NewVerifStage builds a stage that executes through baseStage.Execute; pool == nil makes it inline.
-func NewVerifStage(ctx context.Context, pool concurrent.Pool, id string, plan PlanNode, next func() []Stage, onComplete func()) Stage {
+// plan is called by Plan() (it may panic, as planning code can).
+func NewVerifStage(ctx context.Context, pool concurrent.Pool, id string, plan func() PlanNode, next func() []Stage, onComplete func()) Stage {
 	s := &verifStage{id: id, plan: plan, next: next, onComplete: onComplete}
 	s.stageType = ShardScan
 	if pool != nil {
@@ -32,7 +33,7 @@ func NewVerifStage(ctx context.Context, pool concurrent.Pool, id string, plan Pl
 	return s
 }
 
-func (s *verifStage) Plan() PlanNode     { return s.plan }
+func (s *verifStage) Plan() PlanNode     { return s.plan() }
 func (s *verifStage) Identifier() string { return s.id }
 func (s *verifStage) NextStages() []Stage {
 	if s.next == nil {
